@@ -64,6 +64,7 @@ type outcome struct {
 	mutations   int
 	reads       int
 	graceUsed   int
+	probes      int
 	slogErrors  []string
 	unspecified int
 }
@@ -85,6 +86,50 @@ func isRead(rpc string) bool {
 		return true
 	}
 	return false
+}
+
+func sigRPC(o *op) string {
+	if strings.HasPrefix(o.RPC, "Increment") {
+		return incFamily(o.Kind)
+	}
+	return o.RPC
+}
+
+// probeOps: after every mutating request the harness reads the touched keys back (a plain Get by
+// the same client), so that a write that did not do what it acknowledged is attributed to that
+// write and not to whatever request happens to look at the key later.
+func probeOps(o *op) []op {
+	var out []op
+	add := func(sw int, keys []string) {
+		if len(keys) > 0 {
+			out = append(out, op{RPC: "Get", Parts: []part{{Sw: sw, Keys: uniq(append([]string{}, keys...))}}})
+		}
+	}
+	switch {
+	case o.RPC == "Set":
+		for _, p := range o.Parts {
+			var ks []string
+			for _, kv := range p.KVs {
+				ks = append(ks, kv.Key)
+			}
+			add(p.Sw, ks)
+		}
+	case o.RPC == "Delete":
+		for _, p := range o.Parts {
+			add(p.Sw, p.Keys)
+		}
+	case o.RPC == "ShiftByKeys":
+		add(o.Sw, o.Keys)
+	case o.RPC == "Uint32SlicePush", o.RPC == "Uint32SliceDelete":
+		var ks []string
+		for _, p := range o.Pairs {
+			ks = append(ks, p.Key)
+		}
+		add(o.Sw, ks)
+	case strings.HasPrefix(o.RPC, "Increment"):
+		add(o.Sw, []string{o.Key})
+	}
+	return out
 }
 
 func finalOps() []op {
@@ -121,7 +166,7 @@ func runCase(t *testing.T, c *caseT, onHang func(out *outcome)) *outcome {
 			}
 		}
 		// one request: own goroutine, quiescence, comparison
-		do := func(i int, o *op) bool {
+		do := func(i int, o *op, generated bool) bool {
 			if o.RPC == "Sleep" {
 				time.Sleep(time.Duration(o.SleepMs) * time.Millisecond)
 				synctest.Wait()
@@ -163,7 +208,7 @@ func runCase(t *testing.T, c *caseT, onHang func(out *outcome)) *outcome {
 					if !timed || grace >= 300 {
 						out.stack, out.hang = dump, true
 						out.trace = append(out.trace, stepTrace{I: i, Op: opJSON(o), RPC: o.RPC, Sit: sit, Obs: "NEVER RETURNED"})
-						fail("hang:"+o.RPC+":"+sit, fmt.Sprintf("%s (%s) has not returned at quiescence (request goroutine blocked in %q, %d virtual seconds granted)", o.RPC, sit, state, grace))
+						fail("hang:"+sigRPC(o)+":"+sit, fmt.Sprintf("%s (%s) has not returned at quiescence (request goroutine blocked in %q, %d virtual seconds granted)", o.RPC, sit, state, grace))
 						onHang(out)
 						panic("onHang returned")
 					}
@@ -176,7 +221,9 @@ func runCase(t *testing.T, c *caseT, onHang func(out *outcome)) *outcome {
 				out.graceUsed++
 				m.blur()
 			}
-			out.answered++
+			if generated {
+				out.answered++
+			}
 			st := stepTrace{I: i, Op: opJSON(o), RPC: o.RPC, Sit: sit, Obs: ob.String()}
 			out.trace = append(out.trace, st)
 			if trace {
@@ -187,7 +234,7 @@ func runCase(t *testing.T, c *caseT, onHang func(out *outcome)) *outcome {
 				return false
 			}
 			if ps := sent.Drain("panic"); len(ps) > 0 {
-				fail("panic:"+o.RPC+":"+sit, fmt.Sprintf("%s: the handler panicked (recovered by the gateway, client got response=%v err=%v): %s %s", o.RPC, !ob.NilResp, ob.Err, ps[0].Msg, ps[0].Attrs))
+				fail("panic:"+sigRPC(o)+":"+sit, fmt.Sprintf("%s: the handler panicked (recovered by the gateway, client got response=%v err=%v): %s %s", o.RPC, !ob.NilResp, ob.Err, ps[0].Msg, ps[0].Attrs))
 				return false
 			}
 			for _, e := range sent.Drain() {
@@ -199,17 +246,27 @@ func runCase(t *testing.T, c *caseT, onHang func(out *outcome)) *outcome {
 				fail(v.sig, v.what)
 				return false
 			}
-			if isMutating(o.RPC) {
+			if generated && isMutating(o.RPC) {
 				out.mutations++
 			}
-			if isRead(o.RPC) {
+			if generated && isRead(o.RPC) {
 				out.reads++
 			}
 			return true
 		}
 		ok := true
 		for i := range c.Ops {
-			if ok = do(i, &c.Ops[i]); !ok {
+			if ok = do(i, &c.Ops[i], true); !ok {
+				break
+			}
+			for _, po := range probeOps(&c.Ops[i]) {
+				po := po
+				out.probes++
+				if ok = do(i, &po, false); !ok {
+					break
+				}
+			}
+			if !ok {
 				break
 			}
 		}
@@ -219,14 +276,14 @@ func runCase(t *testing.T, c *caseT, onHang func(out *outcome)) *outcome {
 			for round := 0; round < 2 && ok; round++ {
 				for _, o := range finalOps() {
 					o := o
-					if ok = do(n, &o); !ok {
+					if ok = do(n, &o, false); !ok {
 						break
 					}
 					n++
 				}
 				if ok && round == 0 {
 					o := op{RPC: "Sleep", SleepClass: "evict", SleepMs: evictSleepMs}
-					do(n, &o)
+					do(n, &o, false)
 					n++
 				}
 			}
@@ -295,6 +352,7 @@ func recordCase(c *rig.Check, cs *caseT, out *outcome) {
 	c.Count("requests_answered", int64(out.answered))
 	c.Count("mutating_requests", int64(out.mutations))
 	c.Count("content_reads", int64(out.reads))
+	c.Count("probe_reads_after_writes", int64(out.probes))
 	c.Count("requests_needing_virtual_time", int64(out.graceUsed))
 	c.Count("keys_left_unspecified_at_end", int64(out.unspecified))
 	for _, st := range out.trace {
@@ -332,7 +390,7 @@ func recordCase(c *rig.Check, cs *caseT, out *outcome) {
 func TestCheck(t *testing.T) {
 	c := rig.NewCheck(t, "C06", "exploration")
 	defer c.Finish()
-	c.Rule = "one client issues a PRNG-generated sequence (2 swamps × 4 keys; Set with every flag combination/value kind/metadata, Get, GetAll, GetByKeys, Delete, Count, IsSwampExist, IsKeyExist, AreKeysExist, ten Increment* with/without condition and metadata, Uint32SlicePush/Delete/Size/IsValueExist, ShiftByKeys, Destroy; in-memory and persistent patterns; virtual sleeps that flush and evict) against the real gateway in a synctest bubble; every answer and the final contents (before and after an eviction) are compared with a sequential reference model written from the documentation; a request not finished at quiescence is a hang. non-trivial = at least 5 answered requests including a mutation and a content read; distinct = distinct case JSON"
+	c.Rule = "one client issues a PRNG-generated sequence (2 swamps × 4 keys; Set with every flag combination/value kind/metadata, Get, GetAll, GetByKeys, Delete, Count, IsSwampExist, IsKeyExist, AreKeysExist, ten Increment* with/without condition and metadata, Uint32SlicePush/Delete/Size/IsValueExist, ShiftByKeys, Destroy; in-memory and persistent patterns; virtual sleeps that flush and evict) against the real gateway in a synctest bubble; every answer and the final contents (before and after an eviction) are compared with a sequential reference model written from the documentation; after every mutating request the touched keys are read back (probe Get) so that a wrong write is attributed to the write; a request not finished at quiescence is a hang. non-trivial = at least 5 generated requests were answered, among them a mutation and a content read (probes and the final checks not counted); distinct = distinct case JSON"
 	c.Assumptions = unspecifiedPoints
 	c.MinNontrivial = 20
 	nCases := c.N(200, 4000)
